@@ -25,9 +25,14 @@ Driver ops for the substring meta searcher and the public `memmem` API
       `FinderRev::new(needle).rfind_iter(hay)`, ops `n`, `k`, `o`.
   finderops <cfg> <pf> <hex needle> <ops>
       default ranker; ops separated by `,`: `f:<hex hay>` (find; the haystack is placed at
-      base 65536), `r` (as_ref, continue with the copy), `o` (into_owned), `k` (clone, continue
-      with the clone), `n` (needle(), printed as hex):
+      base 65536), `i:<hex hay>` (`finder.find_iter(hay)` run to exhaustion: all `next()`
+      calls up to and including the first `None`; prints the number of matches), `r` (as_ref,
+      continue with the copy), `o` (into_owned), `k` (clone, continue with the clone), `n`
+      (needle(), printed as hex):
       `ok <results> allocs=<model allocation count> steps=<n>`; steps of the operations only.
+  finderrevops <cfg> <hex needle> <ops>
+      the same op machine for `FinderRev::new(needle)`: `f:<hex hay>` is `rfind`, `i:<hex hay>`
+      is `rfind_iter(hay)` run to exhaustion; `r`, `o`, `k`, `n` as above; same answer format.
 
 `<cfg>` is `avx2|sse2|fallback|neon|simd128`: the vector support of the build/CPU
 (x86_64 with AVX2 detected; x86_64 with AVX2 forced unavailable; x86_64 with SSE2 and AVX2
@@ -112,8 +117,21 @@ def parseFinderOp (s : String) : Option FinderOp :=
     some (.find (mmHay mmOpsHayBase bytes))
   else none
 
-def parseFinderOps (s : String) : Option (List FinderOp) :=
-  if s == "-" then some [] else (s.splitOn ",").mapM parseFinderOp
+def parseFinderOpX (s : String) : Option FinderOpX :=
+  if s.startsWith "i:" then do
+    let bytes ← parseHex (s.drop 2).toString
+    some (.iter (mmHay mmOpsHayBase bytes))
+  else (parseFinderOp s).map FinderOpX.base
+
+def parseFinderOpsX (s : String) : Option (List FinderOpX) :=
+  if s == "-" then some [] else (s.splitOn ",").mapM parseFinderOpX
+
+def fmtMmOutX : OutX → String
+  | .base o => fmtMmOut o
+  | .count k => toString k
+
+def fmtMmOutsX (os : List OutX) : String :=
+  if os.isEmpty then "-" else ",".intercalate (os.map fmtMmOutX)
 
 def handleMemmem (op : String) (args : List String) : Option String :=
   match op, args with
@@ -176,10 +194,18 @@ def handleMemmem (op : String) (args : List String) : Option String :=
     let cfg ← parseMemmemCfg cfg
     let pf ← parsePf pf
     let n := mmNeedle (← parseHex needle)
-    let ops ← parseFinderOps ops
+    let ops ← parseFinderOpsX ops
     some (afterBuild (mmBuild cfg pf Pair.defaultRank n) fun f =>
-      match Finder.run cfg ops f {} {} with
-      | .ok (os, _, heap) c => s!"ok {fmtMmOuts os} allocs={heap.allocs} steps={c.steps}"
+      match Finder.runX cfg ops f {} {} with
+      | .ok (os, _, heap) c => s!"ok {fmtMmOutsX os} allocs={heap.allocs} steps={c.steps}"
+      | .fault e => fmtFault e)
+  | "finderrevops", [cfg, needle, ops] => do
+    let cfg ← parseMemmemCfg cfg
+    let n := mmNeedle (← parseHex needle)
+    let ops ← parseFinderOpsX ops
+    some (afterBuild (FinderRev.new n) fun f =>
+      match FinderRev.runX cfg ops f {} {} with
+      | .ok (os, _, heap) c => s!"ok {fmtMmOutsX os} allocs={heap.allocs} steps={c.steps}"
       | .fault e => fmtFault e)
   | _, _ => none
 
